@@ -205,7 +205,7 @@ PROPS = {
     ),
     "C04": dict(
         theorems=["HC.C04.refuse_fork", "HC.C04.refuse_invalid", "HC.C04.refuse_noop", "HC.C04.refuse_before_commit",
-                  "HC.C04.sound_block", "HC.C04.sound_upgrade", "HC.C04.path_sound", "HC.C04.sound_first_contact"],
+                  "HC.C04.sound_block", "HC.C04.sound_upgrade", "HC.C04.path_sound", "HC.C04.sound_first_contact", "HC.C04.sound_first_contact_extra"],
         bridge_modules=["HC.Bridge.Stores"], bridging=STORES_BRIDGE,
         runs=_c04_runs,
         partial="proved: refusal is a no-op; soundness of block-only proofs (writer's block or an explicit leaf/parent collision), of the hash climb in general, and of the roots/length/fork adopted by any accepted upgrade (signed head or an explicit root-hash collision / forgery). and of first-contact proofs (sound_first_contact: a block together with an upgrade from length 0 on a replica without roots delivers the writer's block - the block's root is shown to be one of the adopted, signed roots). Not yet proved: a block under a root introduced by the same proof's upgrade on a replica that already has roots, the seek section, additional nodes, byte-length bookkeeping - checked on the implementation for every altered proof.",
